@@ -1,17 +1,33 @@
 """Load NumPy-only yadism modules stand-alone from /repo's working tree (importing the yadism package pulls in
-numba/eko, whose import-time subprocess calls CrossHair's audit wall rejects)."""
-import importlib.util
+numba/eko, whose import-time subprocess calls CrossHair's audit wall rejects).
+
+The modules are imported as sub-modules of a synthetic package `yv_yadism` whose __path__ is the source directory but whose
+__init__ is NOT executed, so relative imports between NumPy-only siblings (`from ..observable_name import ...`) resolve."""
+import importlib
 import os
+import sys
+import types
 
 REPO_SRC = os.environ.get("YADISM_SRC", "/repo/src/yadism")
 
 
-def load(relpath, name):
-    spec = importlib.util.spec_from_file_location(name, os.path.join(REPO_SRC, relpath))
-    mod = importlib.util.module_from_spec(spec)
-    spec.loader.exec_module(mod)
-    return mod
+def _pkg(name, path):
+    if name not in sys.modules:
+        m = types.ModuleType(name)
+        m.__path__ = [path]
+        m.__package__ = name
+        sys.modules[name] = m
+    return sys.modules[name]
 
 
-compatibility = load("input/compatibility.py", "yv_compatibility")
-observable_name = load("observable_name.py", "yv_observable_name")
+_pkg("yv_yadism", REPO_SRC)
+_pkg("yv_yadism.input", os.path.join(REPO_SRC, "input"))
+
+
+def load(relpath, name=None):
+    dotted = "yv_yadism." + relpath[:-3].replace("/", ".")
+    return importlib.import_module(dotted)
+
+
+compatibility = load("input/compatibility.py")
+observable_name = load("observable_name.py")
